@@ -14,7 +14,7 @@ RULES = ["recount", "trade-status", "limit", "refusal", "exchange-truth"]
 MINIMA = {"quick": {"rule_recount": 20000, "rule_limit": 3000, "rule_trade-status": 20000, "rule_exchange-truth": 1000}, "thorough": {"rule_recount": 800000}}
 ASSUMPTIONS = [
     "a trade counts as placed once one of its orders was accepted by place_order(execute=True)",
-    "placing a new order inside an already COMPLETE trade is outside the property (a completed trade is final); such trades are skipped",
+    "a further order placed in a trade that had completed brings the trade back to life when the placement is executed; while that request is on its way the trade may still read COMPLETE (only this window is excused), the counts are recounted throughout",
     "trades flagged pending_orders are outside, as the property says",
 ]
 WEIGHTS = [("hostile", 4), ("fastlat", 3), ("plain", 2), ("multi", 1), ("lines", 1), ("event", 1), ("recorded", 1)]
@@ -26,6 +26,8 @@ def plan(tier, seed):
     cases = _sim.plan_profiles(tier, seed, WEIGHTS, 7000, 80000, usage={"p_batch": 0.7})
     n = 1500 if tier == "quick" else 40000
     cases += [{"mode": "live_walk", "seed": seed, "idx": i, "cfg": {"n": 1 + i % 3, "async": i % 4 == 3, "hc": i % 7 == 3, "ext": i % 2 == 1, "sp": (i // 2) % 4 if i % 6 == 5 else 0}, "len": 9 + i % 6} for i in range(n)]
+    # directed case for the listed finding C10-reused-trade-order-completes-before-executed
+    cases.insert(0, {"mode": "directed_reuse", "seed": seed, "idx": 0})
     # paper trading: simulated execution on the pool of a live Flumine, completion reported by the poller
     return cases + [{"mode": "paper_walk", "seed": seed, "idx": i, "len": 40 + i % 50} for i in range(300 if tier == "quick" else 6000)]
 
@@ -53,6 +55,29 @@ def build(desc):
                 if rng.random() < 0.1:
                     a["in_trade_ctx"] = True
     return case, snaps
+
+
+def directed_reuse():
+    """A trade completes (its order is fully matched); a further order is placed in that trade and, while the placement is still on
+    its way (updates 50 ms apart), the runner is withdrawn: the order is voided - complete - before it was ever executed."""
+    from .. import marketgen as G
+
+    mid = "1.210000001"
+    mf = G.MarketFile(mid, [(1, 0, 40.0), (2, 0, 35.0), (3, 0, 25.0)], bsp=False)
+    book = {(k, 0): {"atb": {3.0: 200.0}, "atl": {3.2: 200.0}} for k in (1, 2, 3)}
+    t = G.T0
+    mf.emit(t, rc=book)
+    for dt in (300, 600, 900, 950):
+        mf.emit(t + dt, rc={(1, 0): {"atb": {3.0: 200.0 + dt}}})
+    mf.emit(t + 1000, runner_md={(3, 0): {"status": "REMOVED", "adjustmentFactor": 25.0, "removalDate": G.iso(t + 1000)}})
+    for dt in (1050, 1400, 1800):
+        mf.emit(t + dt, rc={(1, 0): {"atb": {3.0: 300.0 + dt}}})
+    mf.emit(t + 5000, md_changes={"status": "CLOSED"}, runner_md={(1, 0): {"status": "WINNER"}, (2, 0): {"status": "LOSER"}})
+    acts = [
+        {"m": mid, "at": 0, "op": "place", "ref": "a", "trade": "T", "sel": [3, 0], "side": "BACK", "otype": "LIMIT", "price": 2.5, "size": 4.0, "persistence": "LAPSE"},
+        {"m": mid, "at": 4, "op": "place", "ref": "b", "trade": "T", "sel": [3, 0], "side": "LAY", "otype": "LIMIT", "price": 2.0, "size": 4.0, "persistence": "LAPSE"},
+    ]
+    return {"seed": 0, "idx": 0, "markets": [{"id": mid, "text": mf.text()}], "strategies": [{"name": "S0", "actions": acts, "max_live_trade_count": 1, "multi_order_trades": True}]}, {mid: G.read_lines(mf.lines)}
 
 
 def run(desc):
@@ -106,7 +131,7 @@ def run(desc):
                 out.c(k, v)
         out.c("live_walks")
         return out.result()
-    case, snaps = build(desc)
+    case, snaps = directed_reuse() if desc.get("mode") == "directed_reuse" else build(desc)
     tr = simrun.run_case(case, observers=[observers.trade_accounting])
     out = O.Out(PROPERTY)
     O.abort_violation(tr, out)
